@@ -54,7 +54,9 @@ def handleAgg : List String → String
   | [k, cfg, fold, sf, groups] =>
     match parseKind k, parseCfg cfg, parseSumFlag sf, (groups.splitOn "/").mapM (fun g => (parseKind k).bind (parseList · g)) with
     | some k, some cfg, some sf, some gs =>
-      let ps := gs.map (hist k cfg)
+      -- integer instruments go through the code-level `Aggregate(int64_t)` (`BucketBoundaryLessThan`); `parseVal` only
+      -- lets `int64_t` integers through, on which `histLongC_eq` shows it is `hist .long`
+      let ps := gs.map fun g => if k = .long then histLongC cfg (g.map (·.num)) else hist k cfg g
       match fold, ps with
       | "L", p :: rest => showPoint sf (mergeL k p rest)
       | "R", p :: rest => showPoint sf (mergeR k p rest)
